@@ -56,7 +56,9 @@ def deletion(st, skel, n, flag):
     run_prop(st, "query_items_are_a_subset_with_repair", S.query_items_are_a_subset_with_repair, u)
 
 
-QUERIES = [("amp-item", "http://x.fr/p?amp=1&", "=2&id=7"), ("amp-key", "http://x.fr/p?a=1&amp", "=2"), ("amp-entity", "http://x.fr/p?q=1&amp", "b=2&ampere=3")]
+QUERIES = [("amp-item", "http://x.fr/p?amp=1&", "=2&id=7"), ("amp-key", "http://x.fr/p?a=1&amp", "=2"), ("amp-entity", "http://x.fr/p?q=1&amp", "b=2&ampere=3"),
+           # the text '&amp;' written with an escaped ampersand is data of the value, not a broken separator
+           ("amp-entity-escaped", "http://x.fr/p?t=Tom%26amp", "Jerry&l=en")]
 
 
 def queries(st, i, n, flag):
